@@ -27,6 +27,53 @@ def check(run, replay=None):
                        '(frames queued before a claim start and flushed inside/after the window); random node histories.  The oracle follows addresses and claim windows '
                        'from the case and the log and judges every CANSendFrame call at production and at departure time; the final state dump cross-checks its bookkeeping.  '
                        'Debug modes (dm_ClearText, dm_Actisense) divert all output to a stream, are not part of the shared node model and are not exercised.')
+    breplay = bool(replay) and any(l.startswith('# family: settle-blocking-') for l in open(replay))
+    if breplay or not replay:
+        # a CAN driver whose CANOpen() takes time, or fails a few times first: "no node transmits before its CAN interface has been opened and
+        # has settled" counts the 200 ms from the moment CANOpen() returned successfully.  The model's CANOpen is instantaneous and always
+        # succeeds, so this family is judged by the property oracle only (seed C04-11)
+        import random
+        from nodesim import parse_result
+        r = random.Random(run.seed * 7919 + 411)
+        bcases = []
+        if breplay:
+            bcases = cases
+        else:
+            for d, f in [(50, 0), (199, 0), (200, 0), (300, 0), (1, 0), (0, 1), (0, 3), (120, 2), (1000, 1), (250, 0)] + ([(r.choice([10, 100, 400]), r.choice([0, 1])) for _ in range(30)] if run.tier != 'quick' else []):
+                for mode in (1, 2, 3, 4):
+                    ops = ['P']
+                    for _k in range(r.randint(6, 14)):
+                        ops += [r.choice(['T 0', 'T 1', 'T 50', 'T 100', 'T 149', 'T 199', 'T 200', 'T 201', 'T 999', 'T 1000', 'T 1001']),
+                                r.choice(['P', 'P', 'S 0 6 127250 15 255 0 0102030405060708', 'S 0 6 129029 15 255 0 ' + '11' * 20, 'Q hb 1', 'Q pi 0'])]
+                    bcases.append('NODE mode=%d ndev=%d src=%d q=40 slots=5 t0=%d cold=1 copen=%d,%d | %s' % (mode, r.choice([1, 2]), r.choice([22, 100]), r.choice([5000, 4294967000, 10 ** 12]), d, f, ' ; '.join(ops)))
+
+        def settle_oracle(case, res):
+            if res.startswith('crash') or res.startswith('oob'):
+                return 'memory:' + res
+            head, opss = case.split('|', 1)
+            kv = dict(x.split('=', 1) for x in head.split()[1:] if '=' in x)
+            d = int(kv['copen'].split(',')[0])
+            ops = [o.split() for o in opss.split(';')]
+            per_op, _st = parse_result(res)
+            now, settle = 0, None
+            for k, (o, evs) in enumerate(zip(ops, per_op)):
+                if o and o[0] == 'T':
+                    now += int(o[1])
+                for e in evs:
+                    if e[0] == 'note' and len(e) > 2 and e[1] == 'canopen':
+                        now += d
+                        if str(e[2]) == '1':
+                            settle = now
+                    elif e[0] == 'tx':
+                        if settle is None or now - settle < 200:
+                            return 'settle-blocking:op %d (%s): frame %x handed to the driver %s' % (k, ' '.join(o)[:30], e[1], 'before CANOpen() succeeded' if settle is None else '%d ms after CANOpen() returned (the interface settles for 200 ms)' % (now - settle))
+                    elif e[0] == 'res' and e[1] and (settle is None or now - settle < 200):
+                        return 'settle-blocking:op %d (%s): application send accepted %s' % (k, ' '.join(o)[:30], 'before CANOpen() succeeded' if settle is None else '%d ms after CANOpen() returned' % (now - settle))
+            return None
+        for fs in ('w64', 'w32'):
+            vlib.correspond(run, 'settle-blocking-' + fs, 'h_node', fs, 'NODE', bcases, settle_oracle, None, model_args=[fs], impl_only=True)
+        if breplay:
+            return
     st = {}
     CH = 4000       # the 64-bit harness runs all cases of a batch in one process and never frees a node: keep batches moderate
     for fs in ('w64', 'w32'):
